@@ -469,7 +469,7 @@ class PollFn:
     def __init__(self, clo):
         self.clo = clo
     def poll(self, m, ref, cx):
-        return m.call_closure(Ref(self, 'clo'), [tuple_(cx)])
+        return m.call_closure(Ref(self, 'clo'), [cx])
     # Ref(self,'clo') needs dict-like access:
     def get(self, k, d=None):
         return getattr(self, k, d)
@@ -649,3 +649,16 @@ def _tracing_iter_next(m, args, ci):
 @I.rx(r'(^|::)Event::dispatch$|^tracing::__macro_support::__tracing_log$')
 def _event_dispatch(m, args, ci):
     return unit()
+
+@I.rx(r'(^|::)Poll::(is_pending|is_ready)$')
+def _poll_is(m, args, ci):
+    p = deref_val(args[0])
+    r = p.variant == 'Pending'
+    return r if ci.name.endswith('is_pending') else not r
+
+@I.rx(r'(^|::)Poll::map$')
+def _poll_map(m, args, ci):
+    p = args[0]
+    if p.variant == 'Pending':
+        return p
+    return ready(m.call_closure(args[1], [p.fields[0]]))
